@@ -55,6 +55,22 @@ def scenario():
         if fp >= 0:
             start = min(start, fp) if start is not None else fp
     out.append([start, 1 < 2 < 3, bool([]), bool({}), bool(""), bool("x")])
+    # dict built by an explicit loop with `continue` guards (the engine treats it like the comprehension): order, skipping,
+    # overwriting an existing entry, loop variables bound after the loop, bytes.join, math.isfinite / trunc, int(float)
+    import math
+    built = {"z": "kept", "b": "old"}
+    for name, val in sorted({"b": 0, "a": None, "c": "", "children": 1}.items()):
+        if val is None:
+            continue
+        if name in ("children", "value"):
+            continue
+        built[name] = str(val)
+    out.append([list(built.items()), name, val])
+    out.append([b"".join((b"ab", b"", b"c")).decode("latin1"), b"-".join([b"x", b"y"]).decode("latin1"), math.isfinite(1.5), math.isfinite(float("inf")), math.trunc(-2.7), int(-2.7), abs(-1.5)])
+    import re
+    pat = re.compile(r"^([\-+]?)(\d+)[:; ](\d+)(?:[:; ](\d+))?(\.\d*)?$")
+    out.append([pat.match("-12:30").groups(), pat.match("1 2;3.5").groups(), pat.match("12") is None, re.match(r"^\d+\Z", "12\n") is None,
+                "a:b".rfind(":", 0, 2), "a:b:c".rfind(":", 0, 3), "abc".rfind("z", 1)])
     # % formatting and f-strings
     out.append(["%.2f" % 1.005, "%d" % 3.9, f"{7:02d}:{3.14159:04.1f}", "%8.2f" % 3.5])
     return out
